@@ -19,6 +19,16 @@ only wrote containers reachable from the object it went through.
 
 Python oracle: deep snapshot of the other side before/after every mutation, field-by-field
 comparison right after the copy, `is` / shares_memory on every container.
+
+Keyword overrides: every copy-constructor route is also driven WITH keyword arguments that replace a
+field -- dst(source, name= / charge= / mult= / coords= / atomic_charges= / weights=), each applicable one
+alone and all together, on every (source class, destination class) pair (route `RCtorWith dst ovr`,
+205 more rows of the table; attrib= and ConformerEnsemble([..], name= / coords= / ...) by the oracle only).
+The construction itself must leave the source as it was (snapshot before / after the call), the result
+must share nothing with the source (a replaced array is a fresh one), every field the call does not name
+is the source's, a named field holds the value of the call; in the model the `given` record of such a
+case is what the CALL said, merged by `pick_scal` / `copy_route`, so Coq predicts the result from the
+source and the arguments.
 """
 import os, sys, json, struct, pickle, copy as _copy, itertools, math
 import vlib
@@ -639,7 +649,7 @@ def apply_multi(ml, rng, kname, route, pre=lambda units, v: None, desig=None, kw
     sources and their union object before the route runs."""
     import numpy as np
     from molli.chem import Bond
-    cls = ctor(ml, route[1]) if route[0] != "ensfromlist" else None
+    cls = ctor(ml, route[1]) if route[0] in ("concat", "join") else None
     if route[0] == "concat":
         srcs = [make_source(ml, rng, kname) for _ in range(route[2])]
         ch = np.concatenate([s.atomic_charges for s in srcs]) if kname == "Molecule" else None
@@ -1349,8 +1359,8 @@ def plan(ctx):
                     quads.append((kname, route, side, mut, combos[c % len(combos)] if route[0] == "join" else None))
                     c += 1
     # copy-constructor calls WITH keyword overrides: every (source class, destination class) x each applicable keyword
-    # alone and all together (+ attrib=, + the list-of-conformers constructor: oracle only), either side mutated by the
-    # edit that goes for the replaced field and by one more of the menu in turn (quick); the whole menu (thorough)
+    # alone and all together (+ attrib=, + the list-of-conformers constructor: oracle only), either side mutated (quick: see
+    # below; thorough: the whole menu)
     REL = {"name": "scal", "charge": "scal", "mult": "scal", "coords": "coord", "atomic_charges": "charge", "weights": "weight",
            "attrib": "attrib"}
     c = 0
@@ -1361,9 +1371,11 @@ def plan(ctx):
         ov = route_ov(route)
         for side in ("copy", "source"):
             if ctx.thorough:
-                muts = ALL_MUTS * 2
+                muts = list(ALL_MUTS)
             else:
-                muts = [REL[ov[0]] if len(ov) == 1 else ["coords_assign", "scal", "charge", "weight"][c % 4], ALL_MUTS[c % len(ALL_MUTS)]]
+                # one keyword: the edit that goes for the replaced field; all keywords: one of four array / scalar edits and
+                # one more of the menu in turn
+                muts = [REL[ov[0]]] if len(ov) == 1 else [["coords_assign", "scal", "charge", "weight"][c % 4], ALL_MUTS[c % len(ALL_MUTS)]]
                 c += 1
             for mut in muts:
                 quads.append((kname, route, side, mut, None))
@@ -1416,13 +1428,15 @@ def run(ctx, rep):
     import random
     import molli as ml
     _quiet()
-    rep.rule = ("(source class, copy route, mutation, mutated side) over random sources built through the public API; "
+    rep.rule = ("(source class, copy route incl. the set of keyword overrides, mutation, mutated side) over random sources built through the public API; "
                 "a case is non-trivial when the route succeeds and the mutation applies; distinct by that quadruple "
                 "plus the source's size")
     rep.trusted += ["T-emitter harness/c06.py (is / numpy.shares_memory on every container of instrumented sources)",
                     "identity->location encoder and public-accessor observer of harness/c06.py",
                     "CPython 3.12, pickle / copy protocol, attrs.evolve, numpy array copying are executed, not modelled"]
-    rep.assumptions += ["values stored INSIDE an attribute dictionary are not followed (the property speaks of setting / deleting keys)",
+    rep.assumptions += ["keyword overrides are generated truthy and different from the source's value (molli reads a falsy name / charge / "
+                        "mult as `not given`; an array keyword for an ensemble built from an object without conformers has no row to fill)",
+                        "values stored INSIDE an attribute dictionary are not followed (the property speaks of setting / deleting keys)",
                         "the alias row of a route does not depend on the particular source (checked on every random case by tie H)",
                         "a Conformer pickled / deep-copied as a conformer is judged through its ensemble; a Conformer's coordinate "
                         "and charge rows are read as its own arrays (their aliasing with the ensemble is C14's subject)"]
